@@ -33,9 +33,7 @@ Theorem C19_hash1_error_iff :
        (forall g, In g good -> has_newline g = false /\ open g <> None) ->
        (has_newline f = true -> hash1 sha files open = ErrNewline) /\
        (has_newline f = false -> open f = None -> hash1 sha files open = ErrOpen f)).
-Proof.
-  intros sha files open. split; [apply hash1_ok_iff | intros; now apply hash1_first_error].
-Qed.
+Proof. exact hash1_error_iff. Qed.
 Print Assumptions C19_hash1_error_iff.
 
 (* Names containing a newline are refused. *)
@@ -107,9 +105,7 @@ Theorem C19_dir_files_naming :
     (forall e, In e t -> good_path (fst e)) ->
     (good_path prefix -> dir_files t prefix = map (fun e => prefix ++ 47 :: fst e) t) /\
     dir_files t [] = map fst t.
-Proof.
-  intros t prefix Ht. split; [intros Hp; now apply dir_files_naming | now apply dir_files_naming_empty].
-Qed.
+Proof. exact dir_files_naming_both. Qed.
 Print Assumptions C19_dir_files_naming.
 
 (* Hashing a zip equals hashing the directory it extracts to under the same prefix: if
@@ -146,7 +142,6 @@ Proof.
                 (map (rename (B "m@v1.0.0"))
                    [(B "go.mod", Some (B "module m")); (B "a/b  c.go", Some (B "package b"))])).
   { apply perm_swap. }
-  repeat split; try assumption.
-  - now apply zip_dir_agree.
-  - eexists. vm_compute. reflexivity.
+  split; [exact G|]. split; [exact W|]. split; [exact P|].
+  split; [now apply zip_dir_agree | eexists; vm_compute; reflexivity].
 Qed.
